@@ -182,7 +182,6 @@ pub fn well_formed(seq: &[Tk]) -> bool {
 /// the same JUMPI sees a different target on each visit (valid first, then whatever the tail holds).
 pub fn drifting_target_programs() -> Vec<Vec<u8>> {
     let tails: [&[u8]; 4] = [&[0x5b], &[0x00], &[0x60, 0x5b], &[0xfe]];
-    let mut out = Vec::new();
     let mut tail_lists: Vec<Vec<u8>> = vec![vec![]];
     for _ in 0..4 {
         let mut next = Vec::new();
@@ -193,10 +192,8 @@ pub fn drifting_target_programs() -> Vec<Vec<u8>> {
                 next.push(n);
             }
         }
-        out_extend(&mut out, &next);
         tail_lists = next;
     }
-    fn out_extend(_o: &mut Vec<Vec<u8>>, _n: &[Vec<u8>]) {}
     let mut programs = Vec::new();
     for tail in tail_lists {
         for step in [1u8, 2] {
